@@ -192,6 +192,16 @@ type Account struct {
 	events        []*types.Event
 	newestRecords map[types.ChangeLogType]uint32
 	suicided      bool // will be delete from the trie during the "save" phase
+	// The code and caches which are dropped by suicide. They may hold changes of this block which are not saved in db or trie yet, so the hashes are not enough to bring them back
+	beforeSuicide *unsavedData
+}
+
+type unsavedData struct {
+	code        types.Code
+	codeIsDirty bool
+	storage     *StorageCache
+	assetCode   *StorageCache
+	assetId     *StorageCache
 }
 
 func (a *Account) SetSingers(signers types.Signers) error {
@@ -406,11 +416,19 @@ func (a *Account) SetBalance(balance *big.Int) {
 
 func (a *Account) SetSuicide(suicided bool) {
 	if suicided {
+		// put the caches away instead of clearing them, so that undoSuicide gets them back by SetSuicide(false)
+		a.beforeSuicide = &unsavedData{a.code, a.codeIsDirty, a.storage, a.assetCode, a.assetId}
+		a.storage, a.assetCode, a.assetId = NewStorageCache(a.db), NewStorageCache(a.db), NewStorageCache(a.db)
 		a.SetBalance(new(big.Int))
 		a.SetCodeHash(common.Hash{})
 		a.SetStorageRoot(common.Hash{})
 		a.SetAssetCodeRoot(common.Hash{})
 		a.SetAssetIdRoot(common.Hash{})
+	} else if a.beforeSuicide != nil {
+		old := a.beforeSuicide
+		a.code, a.codeIsDirty = old.code, old.codeIsDirty
+		a.storage, a.assetCode, a.assetId = old.storage, old.assetCode, old.assetId
+		a.beforeSuicide = nil
 	}
 	a.suicided = suicided
 }
